@@ -38,7 +38,7 @@ def cut_family(rng, ident):
     stream = session_in(rng)
     out = []
     for cut in range(len(stream) + 1):
-        end = rng.choice(["eof", "eof", "op", "other"])
+        end = rng.choice(["eof", "eof", "op", "other", "optimeout", "deadline"])
         s = [scn.call(1), scn.call(2), scn.notify(3),
              "feednowait/%s" % (stream[:cut].hex() or "-"), "settle", "readerr/" + end, "waitdone", "settle",
              "finishall", "await/c1", "await/c2", "settle",
@@ -46,6 +46,18 @@ def cut_family(rng, ident):
         out.append(scn.line("scn", "%s_%d" % (ident, cut), s,
                             extra="nt=1 family=cut-incoming expect=1:eof+ok,2:eof,3:ok,8:eof,9:eof"))
     return out
+
+
+def read_fault_family(rng, ident, kind):
+    """the connection's Read fails between two frames, with every class of error a net.Conn produces (end of stream,
+    closed connection, an expired read deadline, anything else) while calls are outstanding and handlers running: the
+    receive loop must close the transport itself and everybody must be released"""
+    s = [scn.call(1), scn.call(2), scn.notify(3), "feednowait/" + scn.feed_call(10, 100)[5:], "waithandlers/1"]
+    if rng.chance(1, 2):
+        s += ["feednowait/" + scn.feed_notify(101)[5:], "waithandlers/2"]
+    s += ["settle", "readerr/" + kind, "waitdone", "settle", "finishall", "await/c1", "await/c2", "settle",
+          scn.call(8, nowait=True), "await/c8", scn.notify(9)]
+    return scn.line("scn", ident, s, extra="nt=1 family=read-fault-%s expect=1:eof,2:eof,3:ok,8:eof,9:eof" % kind)
 
 
 def write_fail_family(rng, ident, after):
@@ -93,6 +105,9 @@ def explore(ctx):
         n = 0
         for _ in range({"quick": 2, "thorough": 12, "search": 4}[tier]):
             lines += cut_family(rng, "x%d" % n); n += 1
+        for _ in range({"quick": 2, "thorough": 20, "search": 4}[tier]):
+            for kind in ("eof", "op", "other", "optimeout", "deadline"):
+                lines.append(read_fault_family(rng, "r%d" % n, kind)); n += 1
         for after in range(0, {"quick": 30, "thorough": 60, "search": 40}[tier], 1 if tier != "quick" else 2):
             lines.append(write_fail_family(rng, "w%d" % n, after)); n += 1
         for _ in range({"quick": 120, "thorough": 2500, "search": 400}[tier]):
